@@ -185,6 +185,11 @@ def cases(it, S):
     add("variant collection with the same variant twice", "gene.variants:VariantIntervalCollection.__init__",
         lambda: it.apply(ClassTok("VariantIntervalCollection"), [[var(3, 4), var(3, 4)]], {}, None, 0), {"DuplicateFeatureError", "LocationOverlapException"})
     add("overlapping variants", "gene.variants:VariantIntervalCollection.__init__", lambda: it.apply(ClassTok("VariantIntervalCollection"), [[var(3, 8), var(6, 9)]], {}, None, 0), {"LocationOverlapException"})
+    # the refusal does not depend on the order the variants are supplied in (overlapping pair apart / nested pair around a third)
+    for label, lst in (("overlapping variants supplied apart", [(2, 6), (20, 22), (4, 8)]), ("overlapping variants, reverse order", [(20, 22), (4, 8), (2, 6)]),
+                       ("nested variants supplied apart", [(10, 20), (30, 31), (12, 14)]), ("overlapping variants among four", [(30, 31), (5, 9), (40, 42), (8, 12)])):
+        add(label, "gene.variants:VariantIntervalCollection.__init__",
+            lambda lst=lst: it.apply(ClassTok("VariantIntervalCollection"), [[var(a, b) for a, b in lst]], {}, None, 0), {"LocationOverlapException"})
     add("variant of zero length", "gene.variants:VariantInterval.__init__", lambda: var(3, 3), {"EmptyLocationException"})
     add("two primary transcripts", "gene.gene:GeneInterval.__init__",
         lambda: mk_gene(it, [mk_transcript(it, [(3, 20)], S["PLUS"], is_primary_tx=True, transcript_id="a"), mk_transcript(it, [(4, 20)], S["PLUS"], is_primary_tx=True, transcript_id="b")]), {"ValidationException"})
